@@ -5,7 +5,7 @@ from engine.locks import LockFlow
 LEVEL = "other"
 MIN_OBLIGATIONS = 30
 THOROUGH_CONFIGS = ("headeronly",)
-TECHNIQUE = "constructor-coverage rule on the LogMessage copy constructor (every member from the same-named source member, re-homed pointers, null preserved), CFG rules on OwnThreadHandler::process / Worker::customEvent projected on m_worker, lockset at postEvent, event-priority and who-may-call rules; ambient-sampling rule on the const accessors of LogMessage (captured state only); no container keyed by a raw pointer into message storage in code the worker runs; every hand-off primitive is explicitly queued; no loop or waiting call in the asynchronous logging call; who-may-call rule on resetOwnThread() inside the library (destructor and quit hook only)"
+TECHNIQUE = "constructor-coverage rule on the LogMessage copy constructor (every member from the same-named source member, re-homed pointers, null preserved), CFG rules on OwnThreadHandler::process / Worker::customEvent projected on m_worker, lockset at postEvent, event-priority and who-may-call rules; ambient-sampling rule on the const accessors of LogMessage (captured state only); no container keyed by a raw pointer into message storage in code the worker runs; every hand-off primitive is explicitly queued; no loop or waiting call in the asynchronous logging call; who-may-call rule on resetOwnThread() inside the library (destructor and quit hook only); the sink adapter sends every message once (must-pass rule shared with C01); LogMessage registered as a meta-type under the name the queued signal asks for"
 LEVEL_TEXT = ("Decides the structure of the hand-off for all message contents and schedules: the deep copy initialises every member from the source (a missing member would silently be re-sampled on the worker), "
               "the three source-location pointers are re-homed into owned buffers and stay null when the source is null, the event owns a copy by value, with a worker the logging call only counts and posts "
               "(never runs a handler), posting happens under the handler mutex with default priority and a single event type (so Qt's FIFO queue order = lock order), each event runs the wrapped handler "
